@@ -7,5 +7,5 @@ Require Extraction.
 Require Import ExtrOcamlBasic.
 Extraction Language OCaml.
 Extraction "avmodel.ml" Hex.write HexReader.holds_C07 HexReader.read_file
-  Ast.lit Eval.ctx_new Eval.run Encode.process Encode.operation_of_name Isa.expect Isa.decode
+  Ast.lit Eval.ctx_new Eval.run Encode.process Encode.operation_of_name Isa.expect Isa.expect_at Isa.decode
   Devices.default_device Devices.devices.
